@@ -327,19 +327,22 @@ def parse_items(src, lo, hi, toks=None, in_fn=False):
 def strip_generics(s):
     out = []
     depth = 0
+    prev = ''
     for ch in s:
         if ch == '<':
             depth += 1
-        elif ch == '>':
+        elif ch == '>' and prev != '-':
             depth -= 1
         elif depth == 0:
             out.append(ch)
+        prev = ch
     return re.sub(r'\s+', ' ', ''.join(out)).strip()
 
 
 def impl_key(name):
     """`impl<'a> Iterator for ClassIdIterator<'a>` -> 'impl Iterator for ClassIdIterator'"""
-    return strip_generics(name)
+    # a where clause is not part of the key: `impl<D, F> Minimizer<D, F> where D: ..` -> 'impl Minimizer'
+    return strip_generics(re.split(r'\bwhere\b', name)[0])
 
 
 class SourceFile:
